@@ -69,8 +69,33 @@ def gen_cases(rng, tier):
             frames.append([cents, sats])
         vecs = [[rng.randint(-5, 5) for _ in range(3)] for _ in range(rng.randint(1, 4))]
         tm = [[rng.randint(-3, 3) for _ in range(3)] for _ in range(3)]
-        cases.append({'m': m, 'frames': frames, 'group': rng.choice(GROUPS), 'vecs': vecs, 'tmat': tm, 'aseed': rng.randrange(10**6)})
+        cases.append({'m': m, 'frames': frames, 'group': rng.choice(GROUPS), 'vecs': vecs, 'tmat': tm, 'aseed': rng.randrange(10**6), 'plots': rng.random() < 0.15})
+    # a large system: more centre atoms than an 8-bit index can address and more than 256 satellites (oracle only)
+    cases.append({'big': {'grid': [7, 6, 7], 'bond': 1.5, 'seed': rng.randrange(10**6)}, 'm': [[42, 0, 0], [0, 36, 0], [0, 0, 42]], 'frames': [], 'group': 'mmm', 'vecs': [], 'tmat': []})
     return cases
+
+
+def _impl_big(case):
+    """7 x 6 x 7 = 294 tetrahedral clusters on a 6 A grid of an orthorhombic cell (some bonds cross the faces); every vector must be a bond"""
+    from gemdat.orientations import Orientations
+    b = case['big']
+    rr = np.random.default_rng(b['seed'])
+    g = np.array([[i, j, k] for i in range(b['grid'][0]) for j in range(b['grid'][1]) for k in range(b['grid'][2])], dtype=float)
+    M = np.array(case['m'], dtype=float)
+    cents = (g * 6.0 + 0.3) / np.diag(M)
+    tet = np.array([[1, 1, 1], [1, -1, -1], [-1, 1, -1], [-1, -1, 1]], dtype=float) / math.sqrt(3) * b['bond']
+    T = 3
+    frames = []
+    for t in range(T):
+        ang = 0.07 * t
+        R = np.array([[math.cos(ang), -math.sin(ang), 0], [math.sin(ang), math.cos(ang), 0], [0, 0, 1]])
+        sats = (cents[:, None, :] + ((tet @ R.T) / np.diag(M))[None, :, :]).reshape(-1, 3)
+        frames.append(np.mod(np.concatenate([cents, sats], axis=0), 1))
+    nc = len(cents)
+    traj = synth.make_traj(case['m'], ['P'] * nc + ['S'] * (4 * nc), np.array(frames))
+    ori = Orientations(trajectory=traj, center_type='P', satellite_type='S')
+    vec = np.array(ori.vectors)
+    return {'big_shape': list(vec.shape), 'big_lengths_minmax': [float(np.linalg.norm(vec, axis=-1).min()), float(np.linalg.norm(vec, axis=-1).max())], 'n_centres': nc}
 
 
 def _autocorr_def(v):
@@ -95,6 +120,8 @@ def _autocorr_as_coded(v):
 
 
 def impl(case):
+    if case.get('big'):
+        return _impl_big(case)
     from gemdat.orientations import Orientations
     from gemdat.utils import cartesian_to_spherical, fft_autocorrelation
     from pymatgen.symmetry.groups import PointGroup
@@ -104,6 +131,8 @@ def impl(case):
     traj = synth.make_traj(case['m'], ['P'] * nc + ['S'] * ns, coords)
     guard = synth.InputGuard(trajectory=traj)
     ori = Orientations(trajectory=traj, center_type='P', satellite_type='S')
+    if case.get('plots'):
+        synth.call_plots(ori, ['plot_rectilinear', 'plot_polar', 'plot_bond_length_distribution', 'plot_autocorrelation'])
     lat = traj.get_lattice()
     vec = np.array(ori.vectors)
     frac = lat.get_fractional_coords(vec.reshape(-1, 3)).reshape(vec.shape)
@@ -163,6 +192,16 @@ def _exact_bonds(case):
 
 
 def oracle(case, out):
+    if case.get('big'):
+        if 'big_shape' not in out:
+            return [('c18/harness-error', f"{out.get('error')}: {out.get('msg')} {out.get('tb', '')[-500:]}")]
+        fs = []
+        if out['big_shape'] != [3, 4 * out['n_centres'], 3]:
+            fs.append(('orient/not-minimum-image-bond', f'{out["n_centres"]} centres with 4 satellites each over 3 frames give vectors of shape {out["big_shape"]}'))
+        lo, hi = out['big_lengths_minmax']
+        if abs(lo - case['big']['bond']) > 1e-6 or abs(hi - case['big']['bond']) > 1e-6:
+            fs.append(('orient/length-not-periodic-distance', f'{out["n_centres"]} clusters with bond length {case["big"]["bond"]}: vector lengths range from {lo} to {hi}'))
+        return fs
     if 'frac' not in out:
         return [('c18/harness-error', f"{out.get('error')}: {out.get('msg')} {out.get('tb', '')[-500:]}")]
     fs = synth.inputs_clause(out, 'Orientations')
@@ -212,7 +251,7 @@ def oracle(case, out):
 
 
 def coq_term(case, out):
-    if 'frac' not in out:
+    if 'frac' not in out or case.get('big'):
         return None
     V = lambda v: '(P %s %s %s)' % tuple(z(int(x)) for x in v)
     Mx = lambda m: '(Mx %s %s %s)' % tuple(V(r) for r in m)
@@ -252,12 +291,18 @@ def extra_coq(cases, outs, builddir):
 
 
 def nontrivial(case, out):
+    if case.get('big'):
+        return True
     return _exact_bonds(case)[1]
 
 
 def classify(case, out):
+    if case.get('big'):
+        return ['large-system(294 clusters)']
     return ['group:' + case['group'], f'T={len(case["frames"])}', f'clusters={len(case["frames"][0][0])}']
 
 
 def sample(case, out):
+    if case.get('big'):
+        return {'big': case['big'], 'out': out}
     return {'m': case['m'], 'group': case['group'], 'frame0': case['frames'][0], 'vectors0': out.get('frac', [None])[0]}
